@@ -277,7 +277,25 @@ pub fn guarded<T, F: FnOnce() -> T>(f: F) -> Result<T, String> {
 pub fn panic_class(msg: &str) -> String {
     let mut out = String::new();
     let mut last_hash = false;
+    // quoted input text (`...`, '...') is not part of the class
+    let mut plain = String::new();
+    let mut quote: Option<char> = None;
     for c in msg.lines().next().unwrap_or("").chars() {
+        match quote {
+            Some(q) if c == q => {
+                quote = None;
+                plain.push(c);
+            }
+            Some(_) => {}
+            None => {
+                plain.push(c);
+                if c == '`' {
+                    quote = Some('`');
+                }
+            }
+        }
+    }
+    for c in plain.chars() {
         if c.is_ascii_digit() {
             if !last_hash {
                 out.push('#');
